@@ -470,6 +470,117 @@ def macros(g, thorough, count):
     return out
 
 
+def split_args(t):
+    """split at commas outside brackets"""
+    out, depth, cur = [], 0, ""
+    for ch in t:
+        if ch == "[":
+            depth += 1
+        elif ch == "]":
+            depth -= 1
+        if ch == "," and depth == 0:
+            out.append(cur.strip()); cur = ""
+        else:
+            cur += ch
+    if cur.strip() or out:
+        out.append(cur.strip())
+    return out
+
+class RefRefused(Exception):
+    pass
+
+def ref_expand(text, lib, active=()):
+    """the reference expansion (written from the property, not from the code): every use `name(args)` of a defined macro in
+    `text` is replaced by the macro's body with every whole-word occurrence of each parameter replaced, simultaneously, by the
+    corresponding argument; recursion, unknown arity shortfalls -> RefRefused"""
+    names = {n for n, _, _ in lib}
+    def repl(m):
+        name = m.group(1)
+        if name not in names:
+            return m.group(0)
+        if name in active:
+            raise RefRefused("recursion " + name)
+        params, body = next((p, b) for n, p, b in lib if n == name)
+        args = split_args(m.group(2))
+        mp = {}
+        for i, prm in enumerate(params):
+            if prm in mp:
+                continue
+            mp[prm] = i
+        def sub(mm):
+            w = mm.group(0)
+            if w in mp:
+                if mp[w] >= len(args):
+                    raise RefRefused("missing argument")
+                return args[mp[w]]
+            return w
+        inst = re.sub(r"[_a-zA-Z0-9]+", sub, body)
+        return " " + ref_expand(inst, lib, active + (name,)) + " "
+    return re.sub(r"\b([_a-zA-Z][_a-zA-Z0-9]*)\(([^()]*)\)", repl, text)
+
+def macroref(g, thorough, count):
+    """(program with macros, the same program with every use written out by hand or None when the reference refuses it)"""
+    r = g.rng
+    out = []
+    for _ in range(count):
+        nm = r.randrange(1, 5)
+        names = [r.choice(["a", "ab", "abc", "b", "ba", "x", "x1", "_x", "mm"]) + str(i) for i in range(nm)]
+        lib = []
+        for i, n in enumerate(names):
+            np_ = r.randrange(0, 4)
+            params = r.sample(["a", "ab", "abc", "b", "x", "ax1", "p", "pp", "m", "r", "r_hi", "p_", "_p", "a_1", "x_", "q"], np_)
+            toks = []
+            for _k in range(r.randrange(1, 4)):
+                form = r.randrange(8)
+                pa = r.choice(params) if params else "ax"
+                pb = r.choice(params) if params else "1"
+                if form == 0:
+                    toks.append(f"mov {r.choice([pa, 'ax', 'bx'])},{r.choice([pb, 'cx', '5'])}")
+                elif form == 1:
+                    toks.append(f"add {r.choice([pa, 'dx'])}, {r.choice([pb, '0x10'])}")
+                elif form == 2:
+                    toks.append(f"mov ax, word [{pb}]")            # the argument in an unsigned-only position
+                elif form == 3:
+                    toks.append(f"mov al, {pb}")                    # ... in a byte position
+                elif form == 4:
+                    toks.append(f"mov word [bx,{pb}], ax")          # ... in a signed displacement
+                elif form == 5:
+                    toks.append(f"cmp {pa}, {pb}")
+                elif form == 6 and params:
+                    toks.append(f"inc {params[-1]}")                # a later parameter used, earlier ones perhaps not
+                else:
+                    toks.append(f"xchg {r.choice([pa, 'ax'])},{r.choice(['bx', 'dx'])}")
+                if params and r.random() < 0.2:
+                    toks.append(f"mov dx, {r.choice(params)}{r.choice(['_hi', '1', 'x'])}" if r.random() < 0.3 else f"push {r.choice(params)}")
+            if i > 0 and r.random() < 0.6:
+                callee = r.choice(names[:i])
+                toks.append(f"{callee}({','.join(r.choice(params + ['ax', '3']) for _k in range(3))})")
+            if params and r.random() < 0.15:
+                toks.append(f"{r.choice(params)}(ax,bx,cx)")          # macro passed by name
+            lib.append((n, params, " ".join(toks)))
+        uses = []
+        for _k in range(r.randrange(1, 4)):
+            n = r.choice(names)
+            pool = ["ax", "bx", "dx", "cx", "si", "7", "0x10", "word [bx,si,2]", "word wv", "di", "bp", "65520", "0xFFFF", "32768", "0x8000", "255", "256",
+                    "128", "0b1000000000000000", "40000", "byte [bx]", "offset wv", "word [0xFFF0]", "word es[bp,di,-2]"]
+            args = [r.choice(pool) for _k2 in range(3)]
+            if r.random() < 0.1:
+                args[r.randrange(3)] = r.choice(names)
+            uses.append(f"{n}({', '.join(args)})")
+        body = "\n".join(uses)
+        if r.random() < 0.3:
+            body = "def fn {\n" + body + "\n}\nstart:\nlab:\ncall fn"
+        else:
+            body = "start:\nlab:\n" + body
+        head = "wv: dw 1\n"
+        libtxt = "\n".join(f"macro {n}({','.join(ps)}) -> {b} <-" for n, ps, b in lib)
+        try:
+            ref = head + ref_expand(body, lib) + "\nhlt\n"
+        except RefRefused:
+            ref = None
+        out.append((head + libtxt + "\n" + body + "\nhlt\n", ref))
+    return out
+
 # ------------------------------------------------------------------------------------------------
 # whole-run cases for the CLI (kind `cli`): terminating programs
 
@@ -839,6 +950,11 @@ def main():
             if i % nshards == shard:
                 strip = lambda t: re.sub(r";.*\n?", "\n", t)      # the driver's comment stripping (the library API gets stripped text)
                 sys.stdout.write("asm2 " + enc(strip(a)) + " " + enc(strip(b)) + " " + ("-" if not vals else ".".join(map(str, vals))) + "\n")
+        return
+    if group == "macroref":
+        for i, (a, b) in enumerate(macroref(g, thorough, 4000 if thorough else 500)):
+            if i % nshards == shard:
+                sys.stdout.write("asmx " + enc(a) + " " + (enc(b) if b is not None else "!") + "\n")
         return
     if group == "jumpspell":
         # every jump / loop mnemonic of the Intel manual (written out here, not read from the grammar), lower and upper case
